@@ -8,7 +8,7 @@ Open Scope Z_scope.
 
 (* ---- what the harness emits: instance types are referred to by name into a per-case catalog ---- *)
 Record ccand := mkCC {
-  cc_name : string; cc_it : string; cc_ct : string; cc_zone : string; cc_rid : option string;
+  cc_name : string; cc_pool : string; cc_it : string; cc_ct : string; cc_zone : string; cc_rid : option string;
   cc_pods : list Z;            (* EvictionCost (2^-27 units) of the reschedulable pods *)
   cc_price : Z                 (* observed Candidate.Price *)
 }.
@@ -123,11 +123,17 @@ Inductive case :=
 | CaseOrder (r : reqs) (cat : list itype) (sorted : list string)
 (* everything observed in one generated world shares the catalog *)
 | CaseWorld (flag : bool) (cat : list itype)
+            (balanced : bool)                      (* some candidate's NodePool is Balanced: the evaluator may reject (relational) *)
+            (budget : list (string * Z))           (* disruptionBudgetMapping handed to ComputeCommands *)
             (computes : list wcompute)
-            (single : option (list string * option (string * obs)))   (* candidates tried; the command of ComputeCommands *)
-            (multi : option (list string * option (nat * obs)))       (* candidates in the method's order; the command *)
+            (single : option (list (string * string) * option (string * obs)))   (* candidates (name, pool) given; the command *)
+            (multi : option (list (string * string) * option (nat * obs)))       (* candidates in the method's order; the command *)
             (filters : list (list ccand * reqs * list string * option (list string)))   (* filterOutSameInstanceType *)
-| CaseEmpty (cands : list ccand) (selected : list string)
+| CaseEmpty (budget : list (string * Z)) (cands : list ccand) (selected : list string)   (* candidates in the method's order *)
+(* who is a candidate: every disruptable node with what ShouldDisrupt reads, and the names each method kept *)
+| CaseShould (nodes : list (string * cstate * list Z)) (consolidation emptiness : list string)
+(* computeConsolidation on a candidate that was marked for deletion after the candidates were built *)
+| CaseDeleting (o : ocmd)
 | CaseValidate (nrepl : nat) (repl : list string) (cat : list itype) (s : csim) (valid : bool)
 (* the real Validate after the TTL, the world having moved on; everything is observed at validation time *)
 | CaseValidated (nrepl : nat) (repl : list string) (cat : list itype)
@@ -135,7 +141,7 @@ Inductive case :=
                 (s : csim)                                 (* the harness's simulation over the CURRENT candidates *)
                 (expect : list Z)                          (* reschedulable pods bound to the candidate nodes NOW (from the API) *)
                 (accepted : bool)
-| CaseEmptyValidated (proposed : list string) (current : list (ccand * bool)) (out : option (list string)).
+| CaseEmptyValidated (proposed : list string) (budget_ok : bool) (current : list (ccand * bool)) (out : option (list string)).
 
 Definition price_eqb (a b : price) : bool := optZ_eqb a b.
 
@@ -147,7 +153,7 @@ Definition tag_at (i : nat) (t : string) : string := t ++ "#" ++ itoa (Z.of_nat 
 Fixpoint indexed {A} (i : nat) (l : list A) : list (nat * A) :=
   match l with [] => [] | x :: t => (i, x) :: indexed (S i) t end.
 
-Definition single_tags (flag : bool) (cat : list itype) (computes : list wcompute)
+Definition single_tags (flag balanced : bool) (cat : list itype) (computes : list wcompute)
                        (tried : list string) (out : option (string * obs)) : list string :=
   let entries := map (fun n => find_wc [n] computes) tried in
   if negb (forallb (fun e : option wcompute => match e with Some _ => true | None => false end) entries)
@@ -159,6 +165,7 @@ Definition single_tags (flag : bool) (cat : list itype) (computes : list wcomput
            | Some w => match compute flag (map (to_cand cat) (wc_cands w)) (to_sim cat (wc_sim w)) with NoOp => true | _ => false end
            | None => false
            end) entries
+         || balanced
       then [] else ["corr:single_node"]
   | Some (name, o) =>
       match find_wc [name] computes with
@@ -170,8 +177,9 @@ Definition single_tags (flag : bool) (cat : list itype) (computes : list wcomput
       end
   end.
 
-Definition multi_tags (flag : bool) (cat : list itype) (computes : list wcompute)
+Definition multi_tags (flag balanced : bool) (cat : list itype) (computes : list wcompute)
                       (order : list string) (out : option (nat * obs)) : list string :=
+  match order with [] | [_] => (match out with None => [] | Some _ => ["corr:multi_node"] end) | _ =>
   match find_wc order computes with
   | None => ["corr:case_wellformed"]
   | Some full =>
@@ -185,20 +193,25 @@ Definition multi_tags (flag : bool) (cat : list itype) (computes : list wcompute
     | None =>
         match first_n flag mc (fun k => to_sim cat (sim_at k)) with
         | None => []
-        | Some _ => ["corr:multi_node"]
+        | Some _ => if balanced then [] else ["corr:multi_node"]
         end
     | Some (k, o) =>
         let names := names_of (ob_cmd o) in
         let r0 := match cs_new (sim_at k) with (r, _) :: _ => r | [] => [] end in
         let simf := fun j => to_sim cat (if Nat.eqb j k then reorder names (sim_at j) else sim_at j) in
-        (match first_n flag mc simf with
-         | Some (k', d) => if Nat.eqb k k' && dec_eqb d (ob_cmd o) then [] else ["corr:multi_node"]
-         | None => ["corr:multi_node"]
-         end) ++
+        (if balanced
+         then match multi_probe flag (firstn k mc) (simf k) with
+              | Some d => if dec_eqb d (ob_cmd o) then [] else ["corr:multi_node"]
+              | None => ["corr:multi_node"]
+              end
+         else match first_n flag mc simf with
+              | Some (k', d) => if Nat.eqb k k' && dec_eqb d (ob_cmd o) then [] else ["corr:multi_node"]
+              | None => ["corr:multi_node"]
+              end) ++
         (if sorted_by_key r0 (resolve cat names) then [] else ["corr:order_by_price"]) ++
         match ob_cmd o with ONoOp => ["corr:multi_node"] | _ => oracle_tags flag cat (firstn k cands) o end
     end
-  end.
+  end end.
 
 Definition filter_tags (cat : list itype) (f : list ccand * reqs * list string * option (list string)) : list string :=
   let '(cands, r, opts, out) := f in
@@ -225,17 +238,19 @@ Definition check_case (c : case) : list string :=
   | CaseOrder r cat sorted =>
       if wf_reqs_b r && set_eqb (map it_name cat) sorted && Nat.eqb (length cat) (length sorted) && sorted_by_key r (resolve cat sorted)
       then [] else ["corr:order_by_price"]
-  | CaseWorld flag cat computes single multi filters =>
+  | CaseWorld flag cat balanced budget computes single multi filters =>
       flat_map (fun iw : nat * wcompute =>
                   map (tag_at (fst iw)) (compute_tags flag cat (wc_cands (snd iw)) (wc_sim (snd iw)) (wc_obs (snd iw))))
                (indexed 0 computes) ++
-      (match single with Some (tried, out) => single_tags flag cat computes tried out | None => [] end) ++
-      (match multi with Some (order, out) => multi_tags flag cat computes order out | None => [] end) ++
+      (match single with Some (given, out) => single_tags flag balanced cat computes (single_budget budget given) out | None => [] end) ++
+      (match multi with Some (order, out) => multi_tags flag balanced cat computes (multi_budget budget order) out | None => [] end) ++
       flat_map (fun jf : nat * (list ccand * reqs * list string * option (list string)) =>
                   map (tag_at (fst jf)) (filter_tags cat (snd jf))) (indexed 0 filters)
-  | CaseEmpty cands selected =>
+  | CaseEmpty budget cands selected =>
       let mc := map (to_cand []) cands in
-      (if set_eqb (map c_name (emptiness mc)) selected then [] else ["corr:emptiness"]) ++
+      let empties := filter (fun c => is_empty (to_cand [] c)) cands in
+      (if set_eqb (multi_budget budget (map (fun c => (cc_name c, cc_pool c)) empties)) selected &&
+          forallb (fun n => mem n (map c_name (emptiness mc))) selected then [] else ["corr:emptiness"]) ++
       (* Emptiness runs no simulation by design: its oracle is the emptiness rule only (property text, last sentence) *)
       (if empty_b (filter (fun c => mem (c_name c) selected) mc) then [] else ["oracle:empty_means_no_positive_cost"])
   | CaseValidate nrepl repl cat s valid =>
@@ -245,9 +260,17 @@ Definition check_case (c : case) : list string :=
       (if negb accepted ||
           home_b (mkObs (if Nat.eqb nrepl 0 then ODelete else OReplace [] repl) (cs_pods s) (length (cs_new s)) expect)
        then [] else ["oracle:pods_have_home"])
-  | CaseEmptyValidated proposed current out =>
+  | CaseShould nodes consl empt =>
+      let keep (f : cstate -> bool -> bool) :=
+        map (fun n : string * cstate * list Z => fst (fst n))
+            (filter (fun n : string * cstate * list Z =>
+                       f (snd (fst n)) (is_empty (mkCand (fst (fst n)) "" "" "" None [] (snd n)))) nodes) in
+      (if set_eqb (keep should_disrupt_consolidation) consl then [] else ["corr:should_disrupt_consolidation"]) ++
+      (if set_eqb (keep should_disrupt_emptiness) empt then [] else ["corr:should_disrupt_emptiness"])
+  | CaseDeleting o => match o with ONoOp => [] | _ => ["corr:candidate_deleting"; "oracle:pods_have_home"] end
+  | CaseEmptyValidated proposed budget_ok current out =>
       let cur := map (fun cn : ccand * bool => (to_cand [] (fst cn), snd cn)) current in
-      (match validate_empty proposed cur, out with
+      (match (if budget_ok then validate_empty proposed cur else None), out with
        | None, None => []
        | Some a, Some b => if set_eqb a b then [] else ["corr:validate_empty"]
        | _, _ => ["corr:validate_empty"]
